@@ -549,10 +549,290 @@ Section WithCalls.
     | x :: r => fold_left (fun acc y => match acc with Some a => vec2 add_s a y | None => None end) r (Some x)
     end.
 
+  (* ---- further elements of the core (second table: `elem_more`) -------------------------------------------
+     shapes: a constant pushed, `un`, `bin`, one value popped and two pushed (`un2`), a whole-stack
+     permutation (`stack_op`).  None = outside the domain (EStuck: such runs are not compared). *)
+  Definition un2 (f : value -> option (value * value)) (s : state) : xres state :=
+    let (s1, a) := pop1 s in
+    xdo r <- of_opt (f a); XOk (push (snd r) (push (fst r) s1)).
+
+  Definition stack_op (f : list value -> option (list value)) (s : state) : xres state :=
+    xdo l <- of_opt (f (stk s)); XOk (set_stk s l).
+
+  (* Python's truth of a value (`lhs and rhs`, any(), all()) *)
+  Definition py_truth (v : value) : bool := Z.eqb (py_not v) 0.
+
+  Definition leq_s := cmp_s Z.leb (fun s t => negb (str_ltb t s)).
+  Definition geq_s := cmp_s Z.geb (fun s t => negb (str_ltb s t)).
+  (* not_equals does not vectorise; lists compare with Python's != (outside the domain) *)
+  Definition neq_s (a b : value) : option value :=
+    match eq_s a b with Some (VInt z) => Some (VInt (1 - z)) | _ => None end.
+
+  (* str.split() whitespace below 128 *)
+  Definition is_space (c : N) : bool := (((9 <=? c) && (c <=? 13)) || ((28 <=? c) && (c <=? 32)))%N.
+  Definition upper (t : str) : str := map (fun c => if ((97 <=? c) && (c <=? 122))%N then (c - 32)%N else c) t.
+  Definition lower (t : str) : str := map (fun c => if ((65 <=? c) && (c <=? 90))%N then (c + 32)%N else c) t.
+
+  (* LazyList(range(lo, hi)); more than 5000 items are outside the model *)
+  Definition zrange (lo hi : Z) : option value :=
+    if hi - lo >? 5000 then None
+    else Some (VList (map (fun i => VInt (lo + Z.of_nat i)) (seq 0 (Z.to_nat (hi - lo))))).
+
+  Definition all_ints (l : list value) : option (list Z) :=
+    mapM (fun v => match v with VInt z => Some z | _ => None end) l.
+
+  (* monadic_maximum / monadic_minimum: deep_flatten, then a fold with less_than; integer leaves only *)
+  Definition extreme (pick : Z -> Z -> Z) (a : value) : option value :=
+    match (match a with
+           | VInt z => digits_of z
+           | VList _ => Some (flat a)
+           | _ => None
+           end) with
+    | Some leaves =>
+        match all_ints leaves with
+        | Some [] => Some (VList [])
+        | Some (z :: r) => Some (VInt (fold_left pick r z))
+        | None => None
+        end
+    | None => None
+    end.
+
+  (* dyadic_maximum / dyadic_minimum on two numbers or two strings *)
+  Definition pick2 (want_gt : bool) (a b : value) : option value :=
+    match a, b with
+    | VInt x, VInt y => Some (if (if want_gt then x >? y else x <? y) then a else b)
+    | VStr s, VStr t => Some (if (if want_gt then str_ltb t s else str_ltb s t) then a else b)
+    | _, _ => None
+    end.
+
+  Definition merge_v (a b : value) : option value :=
+    match a, b with
+    | VList la, VList lb => Some (VList (la ++ lb))
+    | VList la, _ => Some (VList (la ++ [b]))
+    | _, VList lb => Some (VList (a :: lb))
+    | VInt _, VInt _ => None                              (* vy_eval(str(lhs) + str(rhs)): not modelled *)
+    | _, _ => add_s a b
+    end.
+
+  Definition reverse_v (a : value) : option value :=
+    match a with
+    | VInt z => Some (VInt (reverse_number z))
+    | VStr t => Some (VStr (rev t))
+    | VList l => Some (VList (rev l))
+    | VFun _ => None
+    end.
+
+  Definition prod_values (l : list value) : option value :=
+    match l with
+    | [] => Some (VInt 0)
+    | x :: r => fold_left (fun acc y => match acc with Some a => vec2 mul_s a y | None => None end) r (Some x)
+    end.
+
+  (* vy_zip without functions: zero fill *)
+  Fixpoint zip0 (la lb : list value) : list value :=
+    match la, lb with
+    | [], _ => map (fun y => VList [VInt 0; y]) lb
+    | x :: ra, [] => VList [x; VInt 0] :: zip0 ra []
+    | x :: ra, y :: rb => VList [x; y] :: zip0 ra rb
+    end.
+
+  Fixpoint nodup_by (eqb : value -> value -> bool) (seen l : list value) : list value :=
+    match l with
+    | [] => []
+    | x :: r => if existsb (eqb x) seen then nodup_by eqb seen r else x :: nodup_by eqb (seen ++ [x]) r
+    end.
+  (* Python's == between two scalars of a Vyxal list: a number never equals a string *)
+  Definition scalar_eqb (a b : value) : bool :=
+    match a, b with
+    | VInt x, VInt y => Z.eqb x y
+    | VStr s, VStr t => str_eqb s t
+    | _, _ => false
+    end.
+  Definition nodup_chars (t : str) : str :=
+    (fix go (seen t : str) : str :=
+       match t with [] => [] | c :: r => if mem c seen then go seen r else c :: go (c :: seen) r end) [] t.
+
+  Definition more_keys : str :=
+    [8320; 8321; 8324; 8326; 8327; 8328; 164; 240; 182; 117; 8222; 8223; 558; 7682; 8743; 8744; 10193;
+     8804; 8805; 8800; 8976; 8759; 8322; 551; 178; 37; 71; 103; 8756; 8757; 7715; 7787; 7714; 7786;
+     638; 640; 637; 641; 928; 109; 8734; 112; 97; 65; 267; 8776; 122; 90; 85; 83]%N.
+
+  Definition elem_more (k : N) (s : state) : xres state :=
+    if (k =? 8320)%N then XOk (push (VInt 10) s)                                           (* ₀ *)
+    else if (k =? 8321)%N then XOk (push (VInt 100) s)                                     (* ₁ *)
+    else if (k =? 8324)%N then XOk (push (VInt 26) s)                                      (* ₄ *)
+    else if (k =? 8326)%N then XOk (push (VInt 64) s)                                      (* ₆ *)
+    else if (k =? 8327)%N then XOk (push (VInt 128) s)                                     (* ₇ *)
+    else if (k =? 8328)%N then XOk (push (VInt 256) s)                                     (* ₈ *)
+    else if (k =? 164)%N then XOk (push (VStr []) s)                                       (* ¤ *)
+    else if (k =? 240)%N then XOk (push (VStr [32%N]) s)                                   (* ð *)
+    else if (k =? 182)%N then XOk (push (VStr [10%N]) s)                                   (* ¶ *)
+    else if (k =? 117)%N then XOk (push (VInt (-1)) s)                                     (* u *)
+    else if (k =? 8222)%N then                                                             (* „ temp[1:] + [temp[0]]: the bottom goes on top *)
+        stack_op (fun l => match l with [] => None | _ => Some (last l (VInt 0) :: removelast l) end) s
+    else if (k =? 8223)%N then                                                             (* ‟ [temp[-1]] + temp[:-1]: the top goes to the bottom *)
+        stack_op (fun l => match l with [] => None | x :: r => Some (r ++ [x]) end) s
+    else if (k =? 558)%N then                                                              (* Ȯ over *)
+        match stk s with
+        | _ :: y :: _ => XOk (push y s)
+        | _ => let (s1, a) := get_input s in XOk (push a s1)
+        end
+    else if (k =? 7682)%N then                                                             (* Ḃ bifurcate *)
+        un2 (fun a => option_map (fun r => (a, r)) (reverse_v a)) s
+    else if (k =? 8743)%N then bin (fun a b => Some (if py_truth a then b else a)) s       (* ∧ lhs and rhs *)
+    else if (k =? 8744)%N then bin (fun a b => Some (if py_truth a then a else b)) s       (* ∨ lhs or rhs *)
+    else if (k =? 10193)%N then bin (fun a b => Some (if py_truth b then a else b)) s      (* ⟑ rhs and lhs *)
+    else if (k =? 8804)%N then bin (vec2 leq_s) s                                          (* ≤ *)
+    else if (k =? 8805)%N then bin (vec2 geq_s) s                                          (* ≥ *)
+    else if (k =? 8800)%N then bin neq_s s                                                 (* ≠ *)
+    else if (k =? 8976)%N then                                                             (* ⌐ 1 - a *)
+        un (vec1 (fun a => match a with VInt z => Some (VInt (1 - z)) | _ => None end)) s
+    else if (k =? 8759)%N then                                                             (* ∷ int(lhs % 2) *)
+        un (vec1 (fun a => match a with VInt z => Some (VInt (z mod 2)) | _ => None end)) s
+    else if (k =? 8322)%N then                                                             (* ₂ is_even: does not vectorise *)
+        un (fun a => match a with
+                     | VInt z => Some (VInt (b2z (z mod 2 =? 0)))
+                     | VStr t => Some (VInt (b2z (Nat.even (length t))))
+                     | VList l => Some (VInt (b2z (Nat.even (length l))))
+                     | VFun _ => None
+                     end) s
+    else if (k =? 551)%N then                                                              (* ȧ abs / remove whitespace *)
+        un (vec1 (fun a => match a with
+                           | VInt z => Some (VInt (Z.abs z))
+                           | VStr t => if ascii_only t then Some (VStr (filter (fun c => negb (is_space c)) t)) else None
+                           | _ => None
+                           end)) s
+    else if (k =? 178)%N then                                                              (* ² exponent(lhs, 2) *)
+        un (vec1 (fun a => match a with VInt z => Some (VInt (z * z)) | _ => None end)) s
+    else if (k =? 37)%N then                                                               (* % lhs % rhs *)
+        bin (vec2 (fun a b => match a, b with
+                              | VInt x, VInt y => if y =? 0 then None else Some (VInt (x mod y))
+                              | _, _ => None
+                              end)) s
+    else if (k =? 71)%N then un (extreme Z.max) s                                          (* G *)
+    else if (k =? 103)%N then un (extreme Z.min) s                                         (* g *)
+    else if (k =? 8756)%N then bin (pick2 true) s                                          (* ∴ *)
+    else if (k =? 8757)%N then bin (pick2 false) s                                         (* ∵ *)
+    else if (k =? 7715)%N then                                                             (* ḣ head, then the rest *)
+        un2 (fun a => match a with
+                      | VInt z => match digits_of z with
+                                  | Some (x :: r) => Some (x, VList r)
+                                  | _ => None
+                                  end
+                      | VStr t => Some (VStr (firstn 1 t), VStr (tl t))
+                      | VList l => Some (hd (VInt 0) l, VList (tl l))
+                      | VFun _ => None
+                      end) s
+    else if (k =? 7787)%N then                                                             (* ṫ all but the last, then the last *)
+        un2 (fun a => match a with
+                      | VInt z => match digits_of z with
+                                  | Some l => Some (VList (removelast l), last l (VInt 0))
+                                  | None => None
+                                  end
+                      | VStr t => Some (VStr (removelast t), VStr (match rev t with c :: _ => [c] | [] => [] end))
+                      | VList l => Some (VList (removelast l), last l (VInt 0))
+                      | VFun _ => None
+                      end) s
+    else if (k =? 7714)%N then                                                             (* Ḣ lhs[1:] if lhs else [] *)
+        un (fun a => match a with
+                     | VStr [] => Some (VList [])
+                     | VStr t => Some (VStr (tl t))
+                     | VList l => Some (VList (tl l))
+                     | _ => None
+                     end) s
+    else if (k =? 7786)%N then                                                             (* Ṫ all but the last *)
+        un (fun a => match a with
+                     | VStr t => Some (VStr (removelast t))
+                     | VList l => Some (VList (removelast l))
+                     | _ => None
+                     end) s
+    else if (k =? 638)%N then                                                              (* ɾ range(1, a + 1) / upper *)
+        un (vec1 (fun a => match a with
+                           | VInt z => zrange 1 (z + 1)
+                           | VStr t => if ascii_only t then Some (VStr (upper t)) else None
+                           | _ => None end)) s
+    else if (k =? 640)%N then                                                              (* ʀ range(0, a + 1) *)
+        un (vec1 (fun a => match a with VInt z => zrange 0 (z + 1) | _ => None end)) s
+    else if (k =? 637)%N then                                                              (* ɽ range(1, a) / lower *)
+        un (vec1 (fun a => match a with
+                           | VInt z => zrange 1 z
+                           | VStr t => if ascii_only t then Some (VStr (lower t)) else None
+                           | _ => None end)) s
+    else if (k =? 641)%N then                                                              (* ʁ range(0, a) / a + reversed(a)[1:] *)
+        un (vec1 (fun a => match a with
+                           | VInt z => zrange 0 z
+                           | VStr t => Some (VStr (t ++ tl (rev t)))
+                           | _ => None end)) s
+    else if (k =? 928)%N then                                                              (* Π foldl(multiply, iterable(lhs)) *)
+        un (fun a => match iter_digits a with Some l => prod_values l | None => None end) s
+    else if (k =? 109)%N then                                                              (* m mirror *)
+        un (fun a => match a with
+                     | VInt z => Some (VInt (z + reverse_number z))
+                     | VStr t => Some (VStr (t ++ rev t))
+                     | VList l => Some (VList (l ++ rev l))
+                     | VFun _ => None
+                     end) s
+    else if (k =? 8734)%N then                                                             (* ∞ palindromise *)
+        un (fun a => match a with
+                     | VInt z => Some (VInt (z + reverse_number z))
+                     | VStr t => Some (VStr (t ++ rev (removelast t)))
+                     | VList l => Some (VList (l ++ rev (removelast l)))
+                     | VFun _ => None
+                     end) s
+    else if (k =? 112)%N then bin (fun a b => merge_v b a) s                               (* p merge(rhs, lhs) *)
+    else if (k =? 97)%N then                                                               (* a any / is a capital letter *)
+        un (fun a => match a with
+                     | VStr [c] => Some (VInt (b2z ((65 <=? c) && (c <=? 91))%N))
+                     | VStr t => Some (VList (map (fun c => VInt (b2z ((65 <=? c) && (c <=? 91))%N)) t))
+                     | _ => option_map (fun l => VInt (b2z (existsb py_truth l))) (iter_digits a)
+                     end) s
+    else if (k =? 65)%N then                                                               (* A all / is a vowel *)
+        let vowel (c : N) := mem c [97; 101; 105; 111; 117; 65; 69; 73; 79; 85]%N in
+        un (fun a => match a with
+                     | VStr [c] => Some (VInt (b2z (vowel c)))
+                     | VStr t => Some (VList (map (fun c => VInt (b2z (vowel c))) t))
+                     | _ => option_map (fun l => VInt (b2z (forallb py_truth l))) (iter_digits a)
+                     end) s
+    else if (k =? 267)%N then                                                              (* ċ vectorised_not(equals(lhs, 1)) *)
+        un (vec1 (fun a => match eq_s a (VInt 1) with Some (VInt z) => Some (VInt (1 - z)) | _ => None end)) s
+    else if (k =? 8776)%N then                                                             (* ≈ all items equal the first; scalar items *)
+        un (fun a => match iter_digits a with
+                     | Some [] => Some (VInt 1)
+                     | Some (x :: r) =>
+                         if forallb is_scalar (x :: r)
+                         then option_map (fun bs => VInt (b2z (forallb (fun b => b) bs)))
+                                (mapM (fun y => match eq_s y x with Some (VInt z) => Some (z =? 1) | _ => None end) r)
+                         else None
+                     | None => None
+                     end) s
+    else if (k =? 122)%N then                                                              (* z zip with itself *)
+        un (fun a => option_map (fun l => VList (zip0 l l)) (iter_digits a)) s
+    else if (k =? 90)%N then                                                               (* Z zip *)
+        bin (fun a b => match iter_digits a, iter_digits b with
+                        | Some la, Some lb => Some (VList (zip0 la lb))
+                        | _, _ => None
+                        end) s
+    else if (k =? 85)%N then                                                               (* U uniquify; scalar items *)
+        un (fun a => match a with
+                     | VStr t => Some (VStr (nodup_chars t))
+                     | _ => match iter_digits a with
+                            | Some l => if forallb is_scalar l then Some (VList (nodup_by scalar_eqb [] l)) else None
+                            | None => None
+                            end
+                     end) s
+    else if (k =? 83)%N then                                                               (* S vy_str *)
+        un (fun a => match a with
+                     | VInt z => Some (VStr (Z_to_dec z))
+                     | VStr _ => Some a
+                     | VList _ => option_map VStr (repr a)
+                     | VFun _ => None
+                     end) s
+    else XErr ENotCore.
+
   (* ---- the element table of the core (key = code point of the one-character element) ------------- *)
   Definition core_keys : str :=
     [43; 45; 42; 78; 8250; 8249; 100; 172; 61; 60; 62; 58; 68; 36; 95; 94; 33; 87; 119; 34; 74; 76;
-     104; 116; 102; 7768; 8721; 110; 63; 44; 8230; 77; 70; 7777; 8224; 163; 165]%N.
+     104; 116; 102; 7768; 8721; 110; 63; 44; 8230; 77; 70; 7777; 8224; 163; 165]%N ++ more_keys.
 
   Definition elem_pure (k : N) (s : state) : xres state :=
     if (k =? 43)%N then ( bin (vec2 add_s) s                                              (* + add *))
@@ -661,7 +941,7 @@ Section WithCalls.
     else
     if (k =? 165)%N then ( XOk (push (reg s) s)                                           (* ¥ *))
     else
-    XErr ENotCore.
+    elem_more k s.
 
   Definition elem_call (k : N) (s : state) : xres state :=
     if (k =? 77)%N then (                                                                 (* M vy_map *)
